@@ -108,6 +108,10 @@ inductive CPc where
   | shutTtlClear                                                -- shutdown.ttl_clear
   | mgetStore (k : Nat) (ks : List Nat) (acc : List (Option Nat)) (iter : Bool)    -- store.get of key `k` of a multi-key read; `ks` still to come
   | mgetPool (k v : Nat) (ks : List Nat) (acc : List (Option Nat)) (iter : Bool)   -- pool.add for the hit on `k`
+  | mgetFlag (outer : Bool) (ks : List Nat) (acc : List (Option Nat)) (iter : Bool)
+    -- flag.load of a multi-key read; `ks` = the keys still to do INCLUDING the current one. `outer = true`: the load of
+    -- `MultiGetIterator::next` (`keys.is_empty() || is_shutting_down()`) resp. the one at the entry of `multi_get`;
+    -- `outer = false`: the load at the entry of the `get` that serves the current key
   deriving Repr, Inhabited
 
 inductive Tid where
@@ -332,15 +336,36 @@ def setClient (b : BState) (i : Nat) (pc : CPc) : BState := { b with cl := b.cl.
 def finishCall (b : BState) (i : Nat) (out : Out) : BState :=
   { b with cl := b.cl.set i .idle, res := b.res.set i (out :: (b.res.getD i [])) }
 
-/-- A multi-key read moves on to its next key after `acc` has been gathered (no schedule point in between): each key
-    goes through `get`, which looks at the shutdown flag first. With the flag set `multi_get` yields `None` for every
-    remaining key, the iterators end there (`keys.is_empty() || is_shutting_down()`). -/
+/-- A multi-key read moves on to its next key after `acc` has been gathered. No shared access happens here: the next
+    action is a load of the shutdown flag, a step of its own (`CPc.mgetFlag`). `MultiGetIterator::next` tests
+    `keys.is_empty()` first (no load after the last key), then loads the flag itself BEFORE calling `get`, which loads it
+    again; `multi_get` loads the flag once at its entry and then calls `get` (one load) for every key. -/
 def mgetNext (b : BState) (i : Nat) (ks : List Nat) (acc : List (Option Nat)) (iter : Bool) : BState :=
   match ks with
   | [] => finishCall b i (.values acc)
+  | k :: rest => setClient b i (.mgetFlag iter (k :: rest) acc iter)
+
+/-- One load of the shutdown flag inside a multi-key read (cached.rs: `multi_get`, `MultiGetIterator::next`, `get`).
+    * `outer = true` (the load of `next()`, or the one at the entry of `multi_get`, where `acc = []`): flag set → the read
+      ends with what it has gathered (`multi_get`: the empty map); else on to the load inside `get` (a `multi_get` of no keys
+      ends here).
+    * `outer = false` (the load at the entry of `get` for the current key): flag set → `get` answers `None` WITHOUT a lookup —
+      no hit, no miss, no access record — and the read goes on with the next key; else on to the lookup. -/
+def mgetFlagAct (b : BState) (i : Nat) (outer : Bool) (ks : List Nat) (acc : List (Option Nat)) (iter : Bool) : BState :=
+  match ks with
+  | [] => finishCall b i (.values acc)
   | k :: rest =>
-    if b.g.shutting then finishCall b i (.values (if iter then acc else acc ++ (k :: rest).map (fun _ => none)))
-    else setClient b i (.mgetStore k rest acc iter)
+    if outer then
+      if b.g.shutting then finishCall b i (.values acc) else setClient b i (.mgetFlag false (k :: rest) acc iter)
+    else
+      if b.g.shutting then mgetNext b i rest (acc ++ [none]) iter else setClient b i (.mgetStore k rest acc iter)
+
+/-- The first step of a multi-key read: NO access to shared state (the thread runs from `client.idle` to its first
+    `flag.load`). An iterator over no keys ends at once (`keys.is_empty()` is tested before the flag is loaded);
+    everything else stands before the outer load. -/
+def mgetStart (b : BState) (i : Nat) (ks : List Nat) (iter : Bool) : BState :=
+  if iter && ks.isEmpty then finishCall b i (.values [])
+  else setClient b i (.mgetFlag true ks [] iter)
 
 /-- `CommandExecutor::send` as the last action of a call (blocking: not enabled while the queue is full). -/
 def sendAct (b : BState) (i : Nat) (cmd : Cmd) : Except String BState :=
@@ -378,7 +403,7 @@ def clientAct (b : BState) (i : Nat) (o : Oracle) : Except String (BState × Ora
         (match r with
          | .get _ => .ok (finishCall b i (.value none), o)
          | .getRef _ => .ok (finishCall b i (.value none), o)
-         | .mget _ _ => .ok (finishCall b i (.values []), o)
+         | .mget ks iter => .ok (mgetStart b i ks iter, o)
          | .weight => .ok (setClient b i .weightRead, o)
          | .shutdown => .ok (setClient b i .shutCas, o)
          | _ => .ok (finishCall b i .err, o))
@@ -391,7 +416,7 @@ def clientAct (b : BState) (i : Nat) (o : Oracle) : Except String (BState × Ora
         | .weight => .ok (setClient b i .weightRead, o)
         | .upsert k v w ttl rm => .ok (setClient b i (.upUpdate k v w ttl rm), o)
         | .getRef k => .ok (setClient b i (.refStore k), o)
-        | .mget ks iter => .ok (mgetNext b i ks [] iter, o)
+        | .mget ks iter => .ok (mgetStart b i ks iter, o)
         | .shutdown => .ok (setClient b i .shutCas, o))
     | .putPresent k v w ttl =>
       if g.store.contains k then .ok (spotFinish b i (.rejected .keyAlreadyExists), o)
@@ -431,6 +456,7 @@ def clientAct (b : BState) (i : Nat) (o : Oracle) : Except String (BState × Ora
       (match poolAdd g (g.cfg.hashOf k) o with
        | .ok (g1, o') => .ok (mgetNext { b with g := g1 } i ks (acc ++ [some v]) iter, o')
        | .error m => .error m)
+    | .mgetFlag outer ks acc iter => .ok (mgetFlagAct b i outer ks acc iter, o)
     | .weightRead =>
       if !wuFree b (.client i) then .error "not enabled: weight_used is locked"
       else .ok (finishCall b i (.weight g.adm.used), o)
